@@ -799,8 +799,89 @@ func c09Sequence(r *rt.Run) {
 	}
 }
 
+// c09Mid embeds the raw paragraph BETWEEN its own fields (nothing says it must come first).
+type c09Mid struct {
+	Summary string
+	Count   int `control:"X-Count"`
+	control.Paragraph
+	Section string
+	Tags    []string `delim:", "`
+}
+
+// c09EmbeddedAnywhere: pass-through with the embedded paragraph in the middle
+// of the struct: known fields before and after it are cleared or changed, and
+// the re-marshalled text shows the struct's current values, unknown fields
+// unchanged and in place.
+func c09EmbeddedAnywhere(r *rt.Run) {
+	t := r.T
+	doc := "Summary: an old summary\nX-Unknown-1: keep me\nSection: oldsection\nX-Count: 7\nTags: a, b\nX-Unknown-2: keep me too\n"
+	var v c09Mid
+	err, task := c09Unmarshal(r, &v, []byte(doc))
+	if taskTrouble(r, "C09", "embedded-not-first", task) {
+		return
+	}
+	if err != nil || v.Summary != "an old summary" || v.Section != "oldsection" || v.Count != 7 {
+		r.Violate("C09/unmarshal-error", "embedded-not-first", "decoding into a struct whose embedded Paragraph is not its first member: err=%v value=%+v", err, v)
+		return
+	}
+	clearSummary, clearSection, clearTags := t.Bool(1, 2, "c09e.summary"), t.Bool(1, 2, "c09e.section"), t.Bool(1, 2, "c09e.tags")
+	if clearSummary {
+		v.Summary = ""
+	} else {
+		v.Summary = "a new summary"
+	}
+	if clearSection {
+		v.Section = ""
+	}
+	if clearTags {
+		v.Tags = nil
+	}
+	w := simio.NewWriter(r, "sink")
+	err, task = c09Marshal(r, &v, w)
+	if taskTrouble(r, "C09", "embedded-not-first", task) {
+		return
+	}
+	r.Probe("embedded-paragraph-not-the-first-member")
+	if err != nil {
+		r.Violate("C09/marshal-error", "embedded-not-first", "%v", err)
+		return
+	}
+	back, rerr, _ := readParas(r, w.Buf)
+	if rerr != nil || len(back) != 1 {
+		r.Violate("C09/marshalled-text-unreadable", "embedded-not-first", "err=%v paragraphs=%d\n%q", rerr, len(back), clip(string(w.Buf), 300))
+		return
+	}
+	p := back[0]
+	expect := map[string]string{"X-Unknown-1": "keep me", "X-Unknown-2": "keep me too", "X-Count": "7"}
+	if !clearSummary {
+		expect["Summary"] = "a new summary"
+	}
+	if !clearSection {
+		expect["Section"] = "oldsection"
+	}
+	if !clearTags {
+		expect["Tags"] = "a, b"
+	}
+	for k, want := range expect {
+		if got, ok := p.Values[k]; !ok || strings.TrimSpace(got) != want {
+			r.Violate("C09/known-field-not-current", "embedded-not-first/"+k, "field %s: written %q (present=%v), the struct says %q\ntext:\n%q", k, got, ok, want, clip(string(w.Buf), 300))
+			return
+		}
+	}
+	for _, k := range p.Order {
+		if _, ok := expect[k]; !ok {
+			r.Violate("C09/known-field-not-current", "embedded-not-first/cleared-field-written", "field %s was cleared in the struct but is written as %q\ntext:\n%q", k, p.Values[k], clip(string(w.Buf), 300))
+			return
+		}
+	}
+}
+
 func c09Misc(r *rt.Run) {
 	t := r.T
+	if t.Bool(1, 4, "c09m.embedded-anywhere") {
+		c09EmbeddedAnywhere(r)
+		return
+	}
 	if t.Bool(1, 3, "c09m.sequence") {
 		c09Sequence(r)
 		return
@@ -940,5 +1021,5 @@ func init() {
 		},
 		Assumptions: []string{"'optional zero fields are omitted' is demanded for fields whose text form is empty when zero (strings, lists, versions, dependencies); the pinned test suite requires false booleans to be written as 'no', and zero integers are written as '0'", "architecture values are restricted to names whose String() form re-parses to the same value (wildcard and three-part names lose information in Arch.String, which belongs to the not-applicable properties C05/C06)"},
 	})
-	propProbes["C09"] = []string{"sequence-with-values-that-marshal-to-nothing", "value-longer-than-4096-bytes", "marshalled-again-after-a-failed-marshal", "same-named-struct-types", "uint-above-int64-range", "marshalled-repeatedly", "list-elements-independent", "several-known-fields-cleared", "required-empty-list", "multi-line-string-field", "paragraph-api", "missing-required-field", "unknown-fields-present", "known-field-cleared", "nested-plain-struct", "pointer-fields"}
+	propProbes["C09"] = []string{"embedded-paragraph-not-the-first-member", "sequence-with-values-that-marshal-to-nothing", "value-longer-than-4096-bytes", "marshalled-again-after-a-failed-marshal", "same-named-struct-types", "uint-above-int64-range", "marshalled-repeatedly", "list-elements-independent", "several-known-fields-cleared", "required-empty-list", "multi-line-string-field", "paragraph-api", "missing-required-field", "unknown-fields-present", "known-field-cleared", "nested-plain-struct", "pointer-fields"}
 }
